@@ -219,6 +219,11 @@ def find(
                 if include_file:
                     state.insert_file(include_file)
                     state.associate(include_file, file_platform)
+                else:
+                    log.warning(
+                        f"{e['file']}: user include '{include}' "
+                        + "(from -include) not found",
+                    )
 
             # Process the file, to build a list of associate nodes
             state.associate(e["file"], file_platform)
